@@ -83,7 +83,15 @@ verif_thread_tag(const struct thread* t)
     return 99;
 }
 static int running_bodies;
-void verif_on_thread_start(int tag) { (void)tag; }
+void
+verif_on_thread_start(int tag)
+{
+    /* C10 (flush hand-over): the sink may be told to stop only after the filter thread has finished;
+     * in the coarse model a filter body that starts with sink.is_stopping already set means the
+     * source raised it without waiting for the filter */
+    if (tag % 10 == 2)
+        VASSERT(RT->video[tag / 10].sink.is_stopping == 0, "C10: the sink was told to stop before the filter thread had finished (averaged frames emitted during the filter's final flush can miss the storage)");
+}
 void verif_on_thread_end(int tag) { (void)tag; }
 void verif_run_pending(struct thread* self);
 int verif_thread_pending(const struct thread* self);
